@@ -7,6 +7,7 @@ mod c17;
 mod c18;
 mod c18fs;
 mod c19;
+mod c20;
 mod wallet;
 mod refnum;
 
@@ -39,6 +40,7 @@ fn main() {
         "C17" => c17::main(tier),
         "C18" => c18::main(tier),
         "C19" => c19::main(tier),
+        "C20" => c20::main(tier),
         _ => {
             eprintln!("usage: vcheck-pure <C16|...> [quick|thorough]");
             std::process::exit(2);
